@@ -6,14 +6,13 @@ oracle : generalised inverses of plausibility / belief from the definition (exac
          permutation and split variants must give the identical p-box; round trip must be the identity
 """
 from __future__ import annotations
-import math, json, logging
+import math, json, logging, bisect
 from fractions import Fraction as F
 import numpy as np
 from . import core
 from .core import q, ql, unq, unql, err_kind
 from .translator import grid as trgrid
 
-EPS = F(1, 2 ** 44)      # a cumulated mass this close to a grid level may be decided either way by binary64 cumsum
 
 
 def _api():
@@ -62,6 +61,20 @@ def run_roundtrip(left, right):
         return ("err", err_kind(e))
 
 
+def model_batch_par(prop, reqs, workers=4):
+    """core.model_batch over `workers` driver processes (the driver is a pure function of each request line)"""
+    import concurrent.futures as cf
+    if len(reqs) < 64:
+        return core.model_batch(prop, reqs)
+    chunks = [reqs[i::workers] for i in range(workers)]
+    with cf.ThreadPoolExecutor(workers) as ex:
+        outs = list(ex.map(lambda c: core.model_batch(prop, c), chunks))
+    res = [None] * len(reqs)
+    for w, out in enumerate(outs):
+        res[w::workers] = out
+    return res
+
+
 def parse_model(s):
     t = s.split()
     if t[0] == "err":
@@ -98,42 +111,47 @@ def geninv(vals, masses, levels):
     return out, [c for _, c in dist]
 
 
-def all_partial_sums(vals, masses):
-    """every cumulated mass a sorted-by-value pass can see (ties in any order are covered by the run sums)"""
-    pairs = sorted(zip([F(float(v)) for v in vals], masses))
-    acc, out = F(0), []
-    for _, m in pairs:
-        acc += m
-        out.append(acc)
-    return out
+def cmp_check(G, vals, w):
+    """The hypothesis of Props.C08.stacking_same_cmp for one endpoint array, evaluated exactly.
 
-
-def ambiguous_levels(G, lo, hi, masses):
-    """indices i of grid levels that lie within EPS of a cumulated mass but not exactly on it... or exactly
-    on it when the binary64 cumsum is not exact (decided by the caller through `exact`)"""
-    near_lo, near_hi = set(), set()
-    for vals, tgt in ((lo, near_lo), (hi, near_hi)):
-        sums = all_partial_sums(vals, masses)
-        for i, p in enumerate(G):
-            if any(abs(c - p) <= EPS for c in sums):
-                tgt.add(i)
-    return near_lo, near_hi
-
-
-def cumsum_exact(lo, hi, w):
-    """True when numpy's cumsum of the masses in both sorted orders is exact (then the tie and the oracle are strict)"""
-    if w is None:
-        return False
-    for vals in (lo, hi):
-        order = np.argsort(np.array(vals, dtype=float), kind="stable")
-        ws = np.array(w, dtype=float)[order]
-        cs = np.cumsum(ws)
-        acc = F(0)
-        for x, c in zip(ws, cs):
-            acc += F(float(x))
-            if F(float(c)) != acc:
-                return False
-    return True
+    reference masses  : the exact rationals of the given masses, divided by their exact sum (a valid DS structure)
+    model masses      : the exact rationals of the given masses (what the model is sent; sum 1 +- a few 2^-53)
+    effective masses  : differences of the binary64 cumulated sums numpy produces in get_ecdf (same argsort call)
+    hypothesis        : along the value-sorted endpoints, the running sums of the model masses and of the effective
+                        masses compare (<=) like the reference running sums against every grid level; both vectors
+                        are positive and all their running sums but the last are below one.
+    returns (holds, excused): `excused` = grid indices whose comparison differs (none when it holds)."""
+    n = len(vals)
+    wf = np.repeat(1 / n, n) if w is None else np.array(w, dtype=float)
+    sv = np.array(vals, dtype=float)
+    arr = np.stack((sv, wf), axis=1)
+    idx = np.argsort(arr[:, 0])                     # exactly the call of get_ecdf
+    cs = np.cumsum(arr[idx, 1])
+    idx_st = np.argsort(sv, kind="stable")
+    ew = [F(1, n)] * n if w is None else [F(float(x)) for x in w]
+    S = sum(ew)
+    mod, acc = [], F(0)
+    for i in idx_st:
+        acc += ew[int(i)]
+        mod.append(acc)
+    ref = [c / S for c in mod]
+    flo = [F(float(c)) for c in cs]
+    ssort = [float(sv[int(i)]) for i in idx_st]
+    same_order = [int(i) for i in idx] == [int(i) for i in idx_st]
+    ks = range(n) if same_order else [k for k in range(n) if k == n - 1 or ssort[k + 1] != ssort[k]]
+    holds, excused = True, set()
+    for k in ks:
+        a = bisect.bisect_right(G, ref[k])          # number of levels x with x <= reference running sum
+        for other in (mod[k], flo[k]):
+            b = bisect.bisect_right(G, other)
+            if a != b:
+                holds = False
+                excused |= set(range(min(a, b), max(a, b)))
+    for seq in (mod, flo):
+        if any(seq[k] >= 1 for k in range(n - 1)) or any(b - a <= 0 for a, b in zip([F(0)] + seq, seq)):
+            holds = False
+            excused = set(range(len(G)))
+    return holds, excused, same_order, ref
 
 
 # ---- generators ------------------------------------------------------------------
@@ -368,8 +386,10 @@ def run(ctx: core.Check):
                 "permutation and a splitting; round trips of step / continuous / degenerate / constant / stacked p-boxes; "
                 "malformed inputs. Each case runs 4 entry points. Non-trivial = at least two distinct focal intervals; "
                 "distinctness on (lo, hi, masses).")
-    ctx.assumptions = ["binary64 cumsum of the masses is not modelled: a grid level within 2^-44 of a cumulated mass is "
-                       "accepted either way unless the binary64 sums are exact (dyadic / grid-hit streams are strict)",
+    ctx.assumptions = ["binary64 cumsum of the masses is not modelled; by Props.C08.stacking_same_cmp it can matter only through the "
+                       "comparisons 'level <= running sum': the harness evaluates that hypothesis exactly on every case (binary64 "
+                       "running sums from the same numpy calls, as exact rationals) and demands equality whenever it holds; only the "
+                       "levels whose comparison differs are excused (counted in input_distribution)",
                        "numpy's unstable default sort: tied endpoints carry the same value, so the bound arrays cannot depend on it",
                        "zero masses and masses not summing to one are outside the property"]
     gen_out = core.LEAN / "Pun/Gen/GridGen.lean"
@@ -379,7 +399,7 @@ def run(ctx: core.Check):
     G = [F(x) for x in Gf]
     cases = gen_cases(ctx, Gf)
     reqs = [f"stack {ql(c['lo'])} {ql(c['hi'])} {'none' if c['w'] is None else ql(c['w'])}" for c in cases]
-    replies = core.model_batch("C08", reqs)
+    replies = model_batch_par("C08", reqs)
     groups: dict = {}
     stacked = []
     for c, rep in zip(cases, replies):
@@ -391,12 +411,15 @@ def run(ctx: core.Check):
         cj = {"stream": stream, "lo": lo, "hi": hi, "w": w, "role": c["role"]}
         valid = (stream != "malformed")
         if valid:
-            masses = exact_masses(n, w)
-            exact = cumsum_exact(lo, hi, w) or w is None
-            # w None: no grid level is within 1e-9 of k/N for N <= 100 (checked below), so strict as well
-            amb_lo, amb_hi = (set(), set()) if exact else ambiguous_levels(G, lo, hi, masses)
-            if w is None and any(abs(F(k, n) - p) < F(1, 10 ** 9) for k in range(1, n) for p in G):
-                ctx.fail({"call": "harness", "symptom": "grid level on k/N"}, cj, "unexpected coincidence of a grid level with k/N")
+            em = exact_masses(n, w)
+            Stot = sum(em)
+            masses = [m / Stot for m in em]          # the valid DS structure (exact sum one) the property speaks about
+            ok_lo, amb_lo, so1, _ = cmp_check(G, lo, w)
+            ok_hi, amb_hi, so2, _ = cmp_check(G, hi, w)
+            exact = ok_lo and ok_hi
+            ctx.bump("cmp-hypothesis-holds" if exact else "cmp-hypothesis-fails(levels excused)")
+            if not (so1 and so2):
+                ctx.bump("numpy-tie-order-differs-from-stable")
             exp_l, sums_l = geninv(lo, masses, G)
             exp_r, sums_r = geninv(hi, masses, G)
             if any(any(c_ == p for p in G) for c_ in sums_l + sums_r):
@@ -470,7 +493,7 @@ def run(ctx: core.Check):
                          f"p-box changes under {m[0]['role']} of the focal elements ({s}[{i}])")
     # --- round trip
     rts = gen_roundtrip(ctx, stacked)
-    rreps = core.model_batch("C08", [f"rt {ql(c['left'])} {ql(c['right'])}" for c in rts])
+    rreps = model_batch_par("C08", [f"rt {ql(c['left'])} {ql(c['right'])}" for c in rts])
     for c, rep in zip(rts, rreps):
         ctx.count(("rt", tuple(c["left"]), tuple(c["right"])), c["left"][0] != c["left"][-1] or c["right"][0] != c["right"][-1], c["stream"])
         impl = run_roundtrip(c["left"], c["right"])
